@@ -68,7 +68,14 @@ def build(rng, rows):
         flat, tag = big[::2], '[strided]'
     if how == 2:
         return 'flat+list-lengths' + tag, R(flat, lengths=lens), None
-    return 'flat+array-lengths' + tag, R(flat, lengths=np.array(lens)), None
+    la = np.array(lens)
+    a = R(flat, lengths=la)
+    if rng.random() < 0.5:
+        # the caller goes on using its own lengths array for something else
+        la[...] = la[::-1].copy() - (la.min() - 1)
+        la[0] = 1
+        tag += '[lengths-recycled]'
+    return 'flat+array-lengths' + tag, a, None
 
 
 def rnd_bound(rng, L):
